@@ -261,6 +261,8 @@ namespace GeographicLib {
             qy.Dist(XPoint(ix[m]*_d2, iy[m]*_d2)) < 2*_t1 - _d2 - _delta;
       }
     }
+    // No intersection was found (this happens with NaN arguments)
+    if (!(q.x < Math::infinity())) q = XPoint(Math::NaN(), Math::NaN());
     return q;
   }
 
